@@ -83,6 +83,26 @@ theorem wrapS64_of_inRange (x : Int) (h : x.natAbs < 9223372036854775808) : wrap
 theorem wrapS64_add_wrapS64 (a i : Int) : wrapS64 (wrapS64 a + i) = wrapS64 (a + i) := by
   unfold wrapS64; omega
 
+theorem addInt_of_inRange (a i : Int) (h : (a + i).natAbs < 9223372036854775808) : addInt exact a i = .int (a + i) := by
+  have : fitsI64 (a + i) = true := by unfold fitsI64; simp; omega
+  simp [addInt, this]
+
+/-- c04-15: whatever the types and the size, the sum cell's VALUE is the sum of the two values (exact arithmetic) -/
+theorem addSum_toRat (s v : Num) : (addSum exact s v).toRat = s.toRat + v.toRat := by
+  cases s <;> cases v <;> simp [addSum, Num.toRat]
+  rename_i a i
+  unfold addInt
+  by_cases h : fitsI64 (a + i) <;> simp [h, Rat.intCast_add]
+
+theorem foldl_addSum_toRat (ns : List Num) : ∀ acc : Num, (ns.foldl (addSum exact) acc).toRat = acc.toRat + ratSum ns := by
+  induction ns with
+  | nil => intro acc; simp [ratSum, Rat.add_zero]
+  | cons x r ih => intro acc; rw [List.foldl_cons, ih, addSum_toRat]; simp [ratSum]; grind
+
+/-- the running sum IS the mathematical sum of the numeric values — every list, no guard (patch c04-15) -/
+theorem sumCell_toRat (ns : List Num) : (sumCell ns).toRat = ratSum ns := by
+  unfold sumCell; rw [foldl_addSum_toRat]; simp [Num.toRat, Rat.zero_add]
+
 /-- the value the running sum is SUPPOSED to hold -/
 def sumSpec (ns : List Num) : Num := if anyFlt ns then .flt (ratSum ns) else .int (intSum ns)
 
@@ -104,8 +124,7 @@ theorem foldl_addSum (ns : List Num) : ∀ (acc : Num),
       cases x with
       | int i =>
         simp only [absIntSum, Num.intPart] at hg'
-        have hw : wrapS64 (a + i) = a + i := wrapS64_of_inRange _ (by omega)
-        rw [show addSum exact (.int a) (.int i) = .int (a + i) by simp [addSum, hw]]
+        rw [show addSum exact (.int a) (.int i) = .int (a + i) by simp [addSum, addInt_of_inRange a i (by omega)]]
         rw [ih (.int (a + i)) (by intro _; simp only [Num.intPart]; omega)]
         by_cases hf : anyFlt r
         · simp [Num.isFlt, anyFlt, hf, Num.toRat, ratSum, Rat.intCast_add]; grind
@@ -131,9 +150,12 @@ theorem sumCell_eq_spec (ns : List Num) (h : absIntSum ns < 9223372036854775808)
   rw [foldl_addSum ns (.int 0) (by intro _; simpa [Num.intPart] using h)]
   simp [Num.isFlt, Num.toRat, Num.intPart, Rat.zero_add]
 
-/-- the overflow branch, all-integer lists: the running sum is ALWAYS the mathematical sum wrapped to int64 -/
-theorem foldl_addSum_ints (ns : List Num) (h : anyFlt ns = false) : ∀ a : Int,
-    ns.foldl (addSum exact) (.int (wrapS64 a)) = .int (wrapS64 (a + intSum ns)) := by
+/-- the running sum as it was computed BEFORE patch c04-15 -/
+def sumCellOld (ns : List Num) : Num := ns.foldl (addSumOld exact) (.int 0)
+
+/-- the old overflow branch, all-integer lists: the running sum was ALWAYS the mathematical sum wrapped to int64 -/
+theorem foldl_addSumOld_ints (ns : List Num) (h : anyFlt ns = false) : ∀ a : Int,
+    ns.foldl (addSumOld exact) (.int (wrapS64 a)) = .int (wrapS64 (a + intSum ns)) := by
   induction ns with
   | nil => intro a; simp [intSum]
   | cons x r ih =>
@@ -141,16 +163,16 @@ theorem foldl_addSum_ints (ns : List Num) (h : anyFlt ns = false) : ∀ a : Int,
     cases x with
     | int i =>
       have hr : anyFlt r = false := by simpa [anyFlt, Num.isFlt] using h
-      rw [List.foldl_cons, show addSum exact (.int (wrapS64 a)) (.int i) = .int (wrapS64 (a + i)) by
-        simp [addSum, wrapS64_add_wrapS64]]
+      rw [List.foldl_cons, show addSumOld exact (.int (wrapS64 a)) (.int i) = .int (wrapS64 (a + i)) by
+        simp [addSumOld, wrapS64_add_wrapS64]]
       rw [ih hr (a + i)]
       simp only [intSum, Num.intPart]
       congr 2; omega
     | flt q => simp [anyFlt, Num.isFlt] at h
 
-theorem sumCell_of_ints (ns : List Num) (h : anyFlt ns = false) : sumCell ns = .int (wrapS64 (intSum ns)) := by
-  have := foldl_addSum_ints ns h 0
-  simpa [sumCell, wrapS64] using this
+theorem sumCellOld_of_ints (ns : List Num) (h : anyFlt ns = false) : sumCellOld ns = .int (wrapS64 (intSum ns)) := by
+  have := foldl_addSumOld_ints ns h 0
+  simpa [sumCellOld, wrapS64] using this
 
 /-- S2: merging two correct running sums gives the correct running sum of the concatenation -/
 theorem addSum_sumSpec (xs ys : List Num) (h : absIntSum (xs ++ ys) < 9223372036854775808) :
@@ -166,8 +188,7 @@ theorem addSum_sumSpec (xs ys : List Num) (h : absIntSum (xs ++ ys) < 9223372036
     simp [fx, fy, addSum, this]
   · have := ratSum_of_noFlt xs (by simpa using fx)
     simp [fx, fy, addSum, this]
-  · have hw : wrapS64 (intSum xs + intSum ys) = intSum xs + intSum ys := wrapS64_of_inRange _ (by omega)
-    simp [fx, fy, addSum, hw]
+  · simp [fx, fy, addSum, addInt_of_inRange _ _ (show (intSum xs + intSum ys).natAbs < 9223372036854775808 by omega)]
 
 theorem sumSpec_toRat (ns : List Num) : (sumSpec ns).toRat = ratSum ns := by
   unfold sumSpec
@@ -403,5 +424,77 @@ theorem mergeO_build (parse : Str → Option Rat) (xs ys : List Val)
             | nil => simp [hx'] at ex
             | cons a r => rfl
           simp [ex, ey, e3, mergeNum, hsum]
+
+/-! ### the same, read as numbers: since patch c04-15 an integer sum that left int64 is a float64 cell, so two ways of
+computing one sum may differ in the TYPE of the cell (int64 4611686018427387904 vs float64 4.611686018427388e18) while
+they denote the same number.  `view` reads the sum cell as its rational value. -/
+
+def NumStats.view (n : NumStats) : Nat × Rat := (n.ncount, n.sum.toRat)
+
+def SegStats.view (s : SegStats) : Bool × Nat × CV × CV × Option (Nat × Rat) :=
+  (s.isNumeric, s.count, s.min, s.max, s.num.map NumStats.view)
+
+def oview (o : Option SegStats) : Option (Bool × Nat × CV × CV × Option (Nat × Rat)) := o.map SegStats.view
+
+theorem mergeO_build_view (parse : Str → Option Rat) (xs ys : List Val) :
+    oview (mergeO exact (build parse xs) (build parse ys)) = oview (build parse (xs ++ ys)) := by
+  by_cases hx : present xs = 0
+  · obtain ⟨h1, h2, h3⟩ := of_present_zero parse xs hx
+    rw [build_of_present_zero parse xs hx]
+    simp [oview, mergeO, build, present_append, hx, nums_append, h1, minCell_append, maxCell_append, h2, h3,
+      cvMin_invalid_left, cvMax_invalid_left]
+  · by_cases hy : present ys = 0
+    · obtain ⟨h1, h2, h3⟩ := of_present_zero parse ys hy
+      rw [build_of_present_zero parse ys hy, build_of_present_pos parse xs hx]
+      simp [oview, mergeO, build, present_append, hx, hy, nums_append, h1, minCell_append, maxCell_append, h2, h3,
+        cvMin_invalid_right _ (minCell_notBackfill parse xs), cvMax_invalid_right _ (maxCell_notBackfill parse xs)]
+    · rw [build_of_present_pos parse xs hx, build_of_present_pos parse ys hy,
+        build_of_present_pos parse (xs ++ ys) (by rw [present_append]; omega)]
+      obtain ⟨c1, c2⟩ := compat_cells parse ys
+      have hmin : cvMin (cvMin (minCell parse xs) (minCell parse ys)) (maxCell parse ys)
+          = cvMin (minCell parse xs) (minCell parse ys) := by
+        rw [cvMin_assoc _ _ _ (minCell_notBackfill parse xs) (minCell_notBackfill parse ys) (maxCell_notBackfill parse ys), c1]
+      have hmax : cvMax (cvMax (maxCell parse xs) (minCell parse ys)) (maxCell parse ys)
+          = cvMax (maxCell parse xs) (maxCell parse ys) := by
+        rw [cvMax_assoc _ _ _ (maxCell_notBackfill parse xs) (minCell_notBackfill parse ys) (maxCell_notBackfill parse ys), c2]
+      have hsum : (addSum exact (sumCell (nums parse xs)) (sumCell (nums parse ys))).toRat
+          = (sumCell (nums parse xs ++ nums parse ys)).toRat := by
+        rw [addSum_toRat, sumCell_toRat, sumCell_toRat, sumCell_toRat, ratSum_append]
+      simp only [oview, mergeO, SegStats.merge]
+      rw [show reduceMinMax exact true (reduceMinMax exact true (minCell parse xs) (minCell parse ys)) (maxCell parse ys)
+            = cvMin (minCell parse xs) (minCell parse ys) from hmin,
+          show reduceMinMax exact false (reduceMinMax exact false (maxCell parse xs) (minCell parse ys)) (maxCell parse ys)
+            = cvMax (maxCell parse xs) (maxCell parse ys) from hmax]
+      rw [present_append, nums_append, minCell_append, maxCell_append]
+      by_cases ex : (nums parse xs).isEmpty
+      · have exn : nums parse xs = [] := List.isEmpty_iff.mp ex
+        by_cases ey : (nums parse ys).isEmpty
+        · have eyn : nums parse ys = [] := List.isEmpty_iff.mp ey
+          simp [exn, eyn, mergeNum, SegStats.view]
+        · simp [exn, ey, mergeNum, SegStats.view]
+      · by_cases ey : (nums parse ys).isEmpty
+        · have eyn : nums parse ys = [] := List.isEmpty_iff.mp ey
+          simp [eyn, ex, mergeNum, SegStats.view]
+        · have e3 : (nums parse xs ++ nums parse ys).isEmpty = false := by
+            cases hx' : nums parse xs with
+            | nil => simp [hx'] at ex
+            | cons a r => rfl
+          simp [ex, ey, e3, mergeNum, SegStats.view, NumStats.view, hsum]
+
+
+/-- merging respects the reading as numbers, on either side -/
+theorem mergeO_view_congr (a a' c c' : Option SegStats) (h1 : oview a = oview a') (h2 : oview c = oview c') :
+    oview (mergeO exact a c) = oview (mergeO exact a' c') := by
+  cases a <;> cases a' <;> cases c <;> cases c' <;> simp_all [oview, mergeO]
+  rename_i a a' c c'
+  obtain ⟨an, ac, ami, ama, anum⟩ := a
+  obtain ⟨an', ac', ami', ama', anum'⟩ := a'
+  obtain ⟨cn, cc, cmi, cma, cnum⟩ := c
+  obtain ⟨cn', cc', cmi', cma', cnum'⟩ := c'
+  simp only [SegStats.view, Prod.mk.injEq] at h1 h2
+  obtain ⟨rfl, rfl, rfl, rfl, hn⟩ := h1
+  obtain ⟨rfl, rfl, rfl, rfl, hm⟩ := h2
+  simp only [SegStats.view, SegStats.merge, Prod.mk.injEq, true_and]
+  cases anum <;> cases anum' <;> cases cnum <;> cases cnum' <;> simp_all [mergeNum, NumStats.view, addSum_toRat]
 
 end SigModel.Stats
